@@ -59,6 +59,11 @@ def c11_jobs():
     return j + c11_more(11)
 
 
+def c11_jobs_all():
+    # writing the data block (grow, shrink, empty, after raw construction) must leave every header field alone: builder queries shared with C13
+    return c11_jobs() + [x for x in c13_jobs() if x.entry == "h_build" and x.defs.get("CLS") in (1, 2, 3, 4, 5, 7) and x.tier == "quick" and x.defs.get("PN", -1) >= 0]
+
+
 def c12_jobs():
     j = fields_jobs("c11_can.cpp", ["h_canhdr", "h_canpay", "h_canfdpay"], 12)
     j.append(Job("c11_can.cpp", "h_can_sizes", sym="none"))
@@ -68,7 +73,7 @@ def c12_jobs():
 
 
 PROPS = {
-    "C11": {"jobs": c11_jobs, "assumptions": COMMON_ASSUME + ["field independence is judged per protocol field: two getters that are views of overlapping bits (CAN crc vs CAN-FD crc/sbc) are not 'other fields' of each other"],
+    "C11": {"jobs": c11_jobs_all, "assumptions": COMMON_ASSUME + ["field independence is judged per protocol field: two getters that are views of overlapping bits (CAN crc vs CAN-FD crc/sbc) are not 'other fields' of each other"],
             "level": "bounded symbolic model checking of the compiled setters/getters: loop-free code, every prior object state and every in-range value decided by the solver; no bound is exceeded within the object size"},
     "C12": {"jobs": c12_jobs, "assumptions": COMMON_ASSUME + ["the layout table /verif/spec/layout.h is a faithful transcription of the ASAM CMP / TECMP documents"],
             "level": "bounded symbolic model checking against an independent layout table"},
@@ -776,6 +781,17 @@ def c13_jobs():
                 add({"CLS": cls, "N": n, "PN": pn}, "quick" if q else "thorough")
         if cls in (1, 2):
             add({"CLS": cls}, "quick", entry="h_dlc")
+        # a large block replaced by a much smaller one (buffer shrink paths)
+        big, small = {1: (8, 1), 2: (64, 8), 3: (40, 2), 4: (64, 1), 5: (64, 2)}[cls]
+        add({"CLS": cls, "N": small, "PN": big}, "quick")
+        add({"CLS": cls, "N": 0, "PN": big}, "thorough")
+        # an empty block passed as (nullptr, 0), onto a fresh object and onto one that holds data
+        add({"CLS": cls, "N": 0, "PN": 4, "NULLP": 1}, "quick")
+        add({"CLS": cls, "N": 0, "PN": -1, "NULLP": 1}, "thorough")
+        # earlier state taken from arbitrary valid raw bytes (decoder-constructed object), same and different length
+        if cls in (1, 2, 3):
+            for (n, pn, t) in {1: ((8, 8, "quick"), (0, 0, "quick"), (4, 8, "thorough")), 2: ((12, 12, "quick"), (64, 64, "thorough"), (8, 8, "quick"), (16, 12, "thorough")), 3: ((8, 8, "quick"), (0, 3, "thorough"))}[cls]:
+                add({"CLS": cls, "N": n, "PN": pn, "PRAW": 1}, t)
     # capture-module status: string length parities, re-set after longer / shorter / different content
     for (s, v) in (((0, 0, 0, 0), 0), ((1, 2, 0, 3), 0), ((2, 1, 3, 0), 3), ((5, 0, 1, 4), 2), ((1, 1, 1, 1), 1)):
         for (p, pv) in ((None, -1), ((3, 3, 3, 3), 4), ((0, 1, 0, 1), 0), ((2, 0, 4, 1), 1)):
@@ -796,7 +812,7 @@ def c13_jobs():
 PROPS["C13"] = {"jobs": c13_jobs, "assumptions": COMMON_ASSUME + [
     "data / string / list lengths (final and of the earlier setData call) are concrete shape parameters; contents and header field values are symbolic",
     "'depends only on the final logical content' is checked as a two-object self-composition: an object that was set before with other data and a fresh object, after the same final calls, have equal raw bytes",
-    "prior states are API-built (default construction plus earlier setter calls), not arbitrary raw buffers"],
+    "prior states are API-built (default construction plus earlier setter calls); for CAN, CAN-FD and LIN also objects constructed from arbitrary raw bytes their validator accepts (PRAW shapes)"],
     "level": "bounded symbolic model checking of the payload builders against getters, wire form, validators and a fresh-object twin"}
 
 
